@@ -127,8 +127,18 @@ Fixpoint ff_scan (slots:list slot) (pgn src dst:Z) (tp:bool) (i:Z) (oldest_i old
     else ff_scan rest pgn src dst tp (i+1) oldest_i oldest_t
   end.
 (* returns the slot table (an expired slot is freed) and the index, = number of slots when none *)
+(* first pass: the busy slot that already holds this message (PGN, source, destination, TP flag); = number of slots when none *)
+Fixpoint ff_key (slots:list slot) (pgn src dst:Z) (tp:bool) (i:Z) : Z :=
+  match slots with
+  | [] => i
+  | s :: rest =>
+    if negb (s_free s) && (s_pgn s =? pgn) && (s_src s =? src) && (s_dst s =? dst) && Bool.eqb (s_tp s) tp then i
+    else ff_key rest pgn src dst tp (i+1)
+  end.
 Definition find_free_slot (r:rnode) (pgn src dst:Z) (tp:bool) : list slot * Z :=
   let mx := nslots r in
+  let k := ff_key (r_slots r) pgn src dst tp 0 in
+  if k <? mx then (r_slots r, k) else
   let '(i, oi, ot) := ff_scan (r_slots r) pgn src dst tp 0 mx (now32 r) in
   if (i =? mx) && has_elapsed ot c_Max_N2kMsgBuf_Time (now32 r)
   then (zset (r_slots r) oi (free_slot (znth (r_slots r) oi slot0)), oi)      (* oi < mx: see ff_scan_oldest_range in the proofs; re-checked by chk_slot at the use *)
@@ -220,6 +230,9 @@ Definition handle_tp (r:rnode) (pgn src dst len:Z) (buf:list Z) : bool * rnode *
     if (ctrl =? c_TP_CM_BAM) || (ctrl =? c_TP_CM_RTS) then
       let nbytes := byte buf 1 + 256 * byte buf 2 in
       let maxp := byte buf 3 in
+      (* one connection per source/destination pair: an open session for another PGN is released *)
+      let r := with_slots r (map (fun s => if negb (s_free s) && s_tp s && (s_src s =? src) && (s_dst s =? dst) && negb (s_pgn s =? tpgn)
+                                           then free_slot s else s) (r_slots r)) in
       let '(slots1, idx) := find_free_slot r tpgn src dst true in
       let r1 := with_slots r slots1 in
       if idx =? mx then
@@ -251,6 +264,7 @@ Definition handle_tp (r:rnode) (pgn src dst len:Z) (buf:list Z) : bool * rnode *
         (true, r, [], mx)
       | Some pm =>
         if m_dst pm =? 255 then (true, r, [], mx) else
+        if negb (m_dst pm =? src) then (true, r, [], mx) else          (* control frame not from the node we are sending to *)
         if negb (m_pgn pm =? tpgn) then (true, end_send_tp_r r idev, [], mx) else
         if byte buf 1 >? 0 then
           if negb (byte buf 2 - 1 =? d_next_dt_seq d) then (true, end_send_tp_r r idev, [], mx) else
@@ -265,7 +279,7 @@ Definition handle_tp (r:rnode) (pgn src dst len:Z) (buf:list Z) : bool * rnode *
       if negb ((0 <=? idev) && (idev <? dev_count (rn r))) then (true, r, [], mx) else
       let d := get_dev (rn r) idev in
       match d_tp_msg d with
-      | Some pm => if m_dst pm =? 255 then (true, r, [], mx) else (true, end_send_tp_r r idev, [], mx)
+      | Some pm => if (m_dst pm =? 255) || negb (m_dst pm =? src) then (true, r, [], mx) else (true, end_send_tp_r r idev, [], mx)
       | None => (true, r, [], mx)
       end
     else (true, r, [], mx)
